@@ -374,4 +374,23 @@ theorem validTrace_nil_old (new : List α) (tr : Trace) (hv : ValidTrace [] new 
     obtain ⟨x, y⟩ := p
     simp [ValidTrace, ValidFrom] at hv
 
+
+theorem flatten_length_le_off (doc : Doc) :
+    ∀ (l c : Nat), doc.length ≤ l → (flatten doc).length ≤ off doc (l, c) := by
+  induction doc with
+  | nil => intro l c _; simp [flatten, joinSep]
+  | cons a doc ih =>
+    intro l c hl
+    cases l with
+    | zero => simp at hl
+    | succ l =>
+      rw [off_succ]
+      cases doc with
+      | nil => simp [flatten, joinSep]; omega
+      | cons b rest =>
+        rw [flatten_cons_cons]
+        have := ih l c (by simpa using hl)
+        simp only [List.length_append, sepNL, List.length_cons, List.length_nil]
+        omega
+
 end SamVerif.Differ
